@@ -1147,6 +1147,107 @@ type VS struct {
 		add(caseT{Family: "probes", Plugin: v.pl, What: v.what, Call: fn, Names: []string{fn, "interface", "error", "comparable", "H"}, Unsupp: true, Tag: "probe"},
 			map[string]string{"u.go": src, "probe_test.go": probe})
 	}
+	// parameters named like an imported package that qualifies only a RESULT type (or a type nested in the results): the
+	// wrappers forward the parameter names and spell the result types inside their scope
+	qual := `import (
+	"container/list"
+	"net/url"
+	"time"
+)
+
+func timeout(time int, retries int) time.Duration { return 0 }
+
+func parse(url string, list int) (*url.URL, *list.List) { return nil, nil }
+
+func later(time string) func(list int) time.Time { return nil }
+
+func both(time time.Duration, url int) time.Time { return time_(url) }
+
+func time_(i int) time.Time { return time.Time{} }
+
+func wrapped(list []int) map[string]*list.Element { return nil }
+
+func failing(time int) (time.Duration, error) { return 0, nil }
+
+func check(url string) (*url.URL, bool) { return nil, true }
+
+func lists(time int) []*list.List { return nil }
+
+func timeout2(time int) time.Duration { return 0 }
+`
+	for _, v := range []struct{ pl, what, call string }{
+		{"curry", "parameter named time, result time.Duration", "FN(timeout)"},
+		{"curry", "parameters named url and list, results *url.URL, *list.List", "FN(parse)"},
+		{"curry", "parameter typed by the package it is named after", "FN(both)"},
+		{"apply", "parameter named time, result time.Duration", "FN(timeout, 2)"},
+		{"apply", "parameters named url and list", "FN(parse, 3)"},
+		{"flip", "parameter named time, result time.Duration", "FN(timeout)"},
+		{"flip", "parameters named url and list", "FN(parse)"},
+		{"uncurry", "outer parameter named time, inner named list, result time.Time", "FN(later)"},
+		{"mem", "parameter named time, result time.Duration", "FN(timeout)"},
+		{"mem", "parameters named url and list", "FN(parse)"},
+		{"mem", "parameter named list, result a map to *list.Element", "FN(wrapped)"},
+		{"toerror", "parameter named url, results (*url.URL, bool)", "FN(e, check)"},
+		{"fmap", "parameter named time, result time.Duration", "FN(timeout2, []int{1})"},
+		{"compose", "stage parameter named time, result (time.Duration, error)", "FN(failing, func(d time.Duration) (string, error) { return \"\", nil })"},
+		{"traverse", "parameter named time, result (time.Duration, error)", "FN(failing, []int{1})"},
+		{"tuple", "values of package types", "FN(time.Second, &url.URL{})"},
+	} {
+		fn := prefixes[v.pl] + "Qual"
+		src := "package PKGDIR\n\n" + qual + "\nvar e error\n\nvar _ = list.New\n\nfunc Use() {\n\t" + strings.ReplaceAll(v.call, "FN", fn) + "\n}\n"
+		add(caseT{Family: "diagnostics", Plugin: v.pl, What: "parameter named like a package that qualifies a result type: " + v.what, Call: fn, Names: []string{fn}, MustOK: true},
+			map[string]string{"u.go": src})
+	}
+	// the generated functions' OWN parameter and variable names (list, item, set, out, …) next to an imported package of that name
+	for _, v := range []struct{ pl, call string }{
+		{"fmap", "FN(lists, []int{1})"}, {"fmap", "FN(wrapped, [][]int{})"}, {"fmap", "FN(func(l *list.List) int { return l.Len() }, ls)"},
+		{"filter", "FN(func(l *list.List) bool { return true }, ls)"}, {"takewhile", "FN(func(l *list.List) bool { return true }, ls)"},
+		{"all", "FN(func(l *list.List) bool { return true }, ls)"}, {"any", "FN(func(l *list.List) bool { return true }, ls)"},
+		{"contains", "FN(ls, ls[0])"}, {"unique", "FN(ls)"}, {"set", "FN(ls)"}, {"union", "FN(ls, ls)"}, {"intersect", "FN(ls, ls)"},
+		{"min", "FN(es, es[0])"}, {"max", "FN(es, es[0])"}, {"sort", "FN(es)"}, {"keys", "FN(map[*list.List]int{})"},
+		{"join", "FN([][]*list.List{})"}, {"traverse", "FN(func(l *list.List) (int, error) { return 0, nil }, ls)"},
+		{"equal", "FN(ls, ls)"}, {"hash", "FN(ls)"}, {"deepcopy", "FN(ls, ls)"}, {"clone", "FN(ls)"}, {"gostring", "FN(es)"}, {"compare", "FN(es, es)"},
+		{"dup", "FN(make(<-chan *list.List))"}, {"tuple", "FN(ls, es)"},
+	} {
+		fn := prefixes[v.pl] + "Shadow"
+		src := "package PKGDIR\n\n" + qual + "\ntype E struct{ N int }\n\nvar ls []*list.List\n\nvar es []E\n\nvar _ = url.Parse\n\nvar _ time.Time\n\nfunc Use() {\n\t" + strings.ReplaceAll(v.call, "FN", fn) + "\n}\n"
+		add(caseT{Family: "diagnostics", Plugin: v.pl, What: "an imported package named like a parameter of the generated function (container/list): " + v.call, Call: fn,
+			Names: []string{fn, "list.List", "List", "any", "Value"}, Unsupp: true, Tag: "generated-parameter-shadows-package"}, map[string]string{"u.go": src})
+	}
+	// an imported struct with an unexported field whose type comes from a THIRD package that nothing else mentions
+	for _, pl := range []string{"hash", "unique", "mem", "equal", "compare", "deepcopy", "clone", "gostring", "contains", "set"} {
+		fn := prefixes[pl] + "Third"
+		var use string
+		switch pl {
+		case "hash", "clone", "gostring":
+			use = "func Use(a *ext.Session) { " + fn + "(a) }\n\nfunc UseR(r *bufio.Reader) { " + fn + "R(r) }"
+		case "equal", "compare", "deepcopy":
+			use = "func Use(a, b *ext.Session) { " + fn + "(a, b) }\n\nfunc UseR(r, q *bufio.Reader) { " + fn + "R(r, q) }"
+		case "unique", "set":
+			use = "func Use(a []*ext.Session) { " + fn + "(a) }\n\nfunc UseR(r []*bufio.Reader) { " + fn + "R(r) }"
+		case "contains":
+			use = "func Use(a []*ext.Session) bool { return " + fn + "(a, a[0]) }\n\nfunc UseR(r []*bufio.Reader) bool { return " + fn + "R(r, r[0]) }"
+		case "mem":
+			use = "func Use(f func(a *ext.Session) int) { " + fn + "(f) }\n\nfunc UseR(f func(r *bufio.Reader) int) { " + fn + "R(f) }"
+		}
+		for _, half := range []string{"Use", "UseR"} {
+			body := use
+			if half == "Use" {
+				body = strings.Split(use, "\n\nfunc UseR")[0]
+			} else {
+				body = "func UseR" + strings.Split(use, "\n\nfunc UseR")[1]
+			}
+			imp := "import ext \"bad/PKGDIR/ext\"\n"
+			if half == "UseR" {
+				imp = "import \"bufio\"\n"
+			}
+			add(caseT{Family: "diagnostics", Plugin: pl, What: "external struct with an unexported field of a third package's type (" + map[string]string{"Use": "ext.Session", "UseR": "bufio.Reader"}[half] + ")",
+				Call: fn, Names: []string{fn, fn + "R", "unexported", "private", "token", "Session", "Reader", "rd", "buf"}, Unsupp: true},
+				map[string]string{"u.go": "package PKGDIR\n\n" + imp + "\n" + body + "\n",
+					"ext/ext.go":     "package ext\n\nimport \"bad/PKGDIR/third\"\n\ntype Session struct {\n\tUser  string\n\tRoles []string\n\ttoken third.Token\n\tinner *third.Token\n}\n\nfunc New() *Session { return &Session{} }\n",
+					"third/third.go": "package third\n\ntype Token struct {\n\tID    int\n\tScope []string\n}\n"})
+		}
+	}
 	// unnamed struct with an embedded field (FieldStrings), private fields of an external struct (gostring)
 	for _, pl := range []string{"equal", "hash", "compare"} {
 		tp := pluginByName(pl)
@@ -1174,6 +1275,44 @@ type VS struct {
 			add(caseT{Family: "diagnostics", Plugin: pl, What: "external struct: " + v.what, Call: fn, Names: []string{fn, fn + "W", "private", "ext.T", "unexported", "_flags", "ñame", "_a"}, Unsupp: true},
 				map[string]string{"u.go": src2, "ext/ext.go": "package ext\n\ntype T struct {\n" + v.fields + "}\n\nfunc New() *T { return &T{} }\n"})
 		}
+	}
+	// the words "invalid type" where they are not a type (struct tag, string, field name): the call must not wait for ever
+	for _, pl := range []string{"equal", "hash", "compare", "gostring", "deepcopy", "clone"} {
+		tp := pluginByName(pl)
+		fn := prefixes[pl] + "Tag"
+		params, body := tp.call(fn)
+		src := "package PKGDIR\n\ntype T struct {\n\tA []int \x60json:\"invalid type\"\x60\n\tInvalidType string \x60doc:\"this says invalid type too\"\x60\n}\n\nfunc Use(" + params("*T") + ") {\n\t" + body + "\n}\n"
+		if pl == "equal" || pl == "hash" || pl == "gostring" { // the plugins that take an unnamed struct by value
+			src += "\nfunc UseAnon(" + params("struct {\n\tA []int \x60x:\"invalid type\"\x60\n}") + ") {\n\t" + strings.Replace(body, fn, fn+"Anon", 1) + "\n}\n"
+		}
+		add(caseT{Family: "diagnostics", Plugin: pl, What: "struct tags that contain the words invalid type", Call: fn, Names: []string{fn}, MustOK: true}, map[string]string{"u.go": src})
+	}
+	// an interface type whose method mentions an undeclared type / a bound method value of an undeclared type
+	for _, v := range []string{"func Use(a, b interface{ M(x ID) }) bool { return deriveEqualIface(a, b) }",
+		"func Use(a interface{ M() []ID }) uint64 { return deriveHashIface(a) }",
+		"type I interface{ M(map[ID]int) }\n\nfunc Use(a, b I) bool { return deriveEqualIface(a, b) }",
+		"var v ID\n\nfunc Use() { deriveCurryIface(v.Method) }"} {
+		add(caseT{Family: "unresolved", What: "an undeclared type in the methods of an interface / a method value", Call: "deriveEqualIface",
+			Names: []string{"deriveEqualIface", "deriveHashIface", "deriveCurryIface", "ID"}, UserBad: true}, map[string]string{"u.go": "package PKGDIR\n\n" + v + "\n"})
+	}
+	// customised prefixes under which the helper name one plugin makes up is the name of another plugin's call (F13)
+	add(caseT{Family: "diagnostics", Plugin: "hash", What: "-pluginprefix hash=hs,equal=hs_T: the hash helper for type T1 would be named like the equal call", Call: "hs_T",
+		Names: []string{"hs_T", "hs"}, MustOK: true, PreArgs: []string{"-pluginprefix=hash=hs,equal=hs_T"}},
+		map[string]string{"u.go": "package PKGDIR\n\ntype T1 []int\n\ntype S struct {\n\tL []string\n\tX T1\n}\n\nfunc H(a *S) uint64 { return hs(a) }\n\nfunc E(a, b *S) bool { return hs_T(a, b) }\n"})
+	add(caseT{Family: "diagnostics", Plugin: "compare", What: "-pluginprefix compare=c,sort=c_,keys=c_K: helper names of three plugins meet", Call: "c",
+		Names: []string{"c", "c_"}, Unsupp: true, PreArgs: []string{"-pluginprefix=compare=c,sort=c_,keys=c_K"}},
+		map[string]string{"u.go": "package PKGDIR\n\ntype K map[string]int\n\ntype S struct {\n\tM K\n\tL []string\n}\n\nfunc C(a, b *S) int { return c(a, b) }\n\nfunc Ks(k K) []string { return c_K(k) }\n"})
+	// the package declares a name that the generated file needs for an import (fmt, strconv, bytes, sort, strings)
+	for _, v := range []struct{ pl, decl string }{
+		{"gostring", "var fmt = 1\n\nfunc strconv() {}\n"}, {"gostring", "type fmt struct{}\n\nconst strconv = 2\n"},
+		{"equal", "type bytes []int\n"}, {"compare", "var bytes, strings int\n"}, {"hash", "func math() {}\n\nvar sort = 0\n"}, {"compare", "func sort() {}\n"},
+	} {
+		tp := pluginByName(v.pl)
+		fn := prefixes[v.pl] + "Decl"
+		params, body := tp.call(fn)
+		src := "package PKGDIR\n\n" + v.decl + "\ntype T struct {\n\tB []byte\n\tS string\n\tF float64\n\tM map[string]int\n\tP *int\n}\n\nfunc Use(" + params("*T") + ") {\n\t" + body + "\n}\n"
+		add(caseT{Family: "diagnostics", Plugin: v.pl, What: "the package declares the name of a package the generated file imports: " + strings.ReplaceAll(strings.TrimSpace(v.decl), "\n", " "),
+			Call: fn, Names: []string{fn}, MustOK: true}, map[string]string{"u.go": src})
 	}
 	// the command line
 	okPkg := "package PKGDIR\n\nfunc Eq(a, b []int) bool { return deriveEqual(a, b) }\n"
@@ -1584,6 +1723,22 @@ func genLocalTypes(prefixes map[string]string) {
 }
 
 func genChanDirs(prefixes map[string]string) {
+	// results used with their expected types: a channel type printed after `chan` needs its parentheses
+	for _, v := range []struct{ pl, what, decls, use string }{
+		{"join", "slice of receive-only channels, result used", "var cs []<-chan int", "var out <-chan int = FN(cs)\n\t_ = out"},
+		{"join", "two receive-only channels, result used", "var c1, c2 <-chan int", "var out <-chan int = FN(c1, c2)\n\t_ = out"},
+		{"join", "receive-only channel of receive-only channels, result used", "var cc <-chan (<-chan int)", "var out <-chan int = FN(cc)\n\t_ = out"},
+		{"join", "channel of receive-only channels, result used", "var cc chan (<-chan int)", "var out <-chan int = FN(cc)\n\t_ = out"},
+		{"join", "receive-only channel of channels, result used", "var cc <-chan chan int", "var out <-chan int = FN(cc)\n\t_ = out"},
+		{"join", "slice of receive-only channels of receive-only channels", "var cs []<-chan (<-chan string)", "out := FN(cs)\n\tvar c <-chan string = <-out\n\t_ = c"},
+		{"dup", "receive-only channel of receive-only channels, results used", "var cc <-chan (<-chan int)", "a, b := FN(cc)\n\tvar x, y <-chan int = <-a, <-b\n\t_, _ = x, y"},
+		{"fmap", "receive-only channel of receive-only channels through fmap", "var cc <-chan (<-chan int)\n\nfunc f(c <-chan int) <-chan int { return c }", "out := FN(f, cc)\n\tvar c <-chan int = <-out\n\t_ = c"},
+		{"pipeline", "stages over receive-only channels of channels", "func f(a int) <-chan (<-chan string) { return nil }\n\nfunc g(s <-chan string) <-chan float64 { return nil }", "h := FN(f, g)\n\tvar out <-chan float64 = h(1)\n\t_ = out"},
+	} {
+		fn := prefixes[v.pl] + "Paren"
+		src := "package PKGDIR\n\n" + v.decls + "\n\nfunc Use() {\n\t" + strings.ReplaceAll(v.use, "FN", fn) + "\n}\n"
+		add(caseT{Family: "chandirs", Plugin: v.pl, What: v.what, Call: fn, Names: []string{fn, "chan"}, Unsupp: true}, map[string]string{"u.go": src})
+	}
 	dirs := []string{"chan", "<-chan", "chan<-"}
 	emit := func(pl, what, decls, call string) {
 		fn := prefixes[pl] + "Dir"
